@@ -748,7 +748,8 @@ def run(ctx):
                         'small-scope: MC/S2C tables have <= 2 rows over 6-10 values; C2S tables <= 30 rows',
                         'histories: tables are grids of 2-4 a-values x 2 b-values (every row tells two filters apart), pools are a menu of 5 (thorough 12) '
                         'triples of filter objects; a column named by two filters of one call carries the same condition in both (SameColumnOnce), '
-                        'at most one callable per call (SingleCallable); a list of admissible values occurring in two dicts of a pool is one shared list object',
+                        'at most one callable per call (SingleCallable); a list of admissible values is an object with an identity (<<"list", contents, id>>): the same id in two dicts of a pool is one list held by both',
+                        'histories with the caller\'s edits, and the recorded random ones, are replayed each in a process of its own (forked from a worker that imported pyg_base and never called it): what the library remembers from one history neither hurts nor helps the next',
                         'the caller edits only objects he handed to the previous call, one edit between two calls; the second table has the same columns; '
                         'NameExpressible: a condition on a column called self (one_or_none: also exc, find) is expressible through a dict filter only '
                         '(Python refuses the keyword), and on a table with a column called self no callable can be used (pyg calls it with the row as '
